@@ -338,7 +338,9 @@ theorem orderWith_ok (t : Table) (roots : List Nat) (key : Nat → Option K) (sp
     (U : Nat → Cell) (hv : ValidLayout t roots) (hs : IsSem t U) (hk : KeyOK t key U) :
     ∃ (st : ImpState K) (rootIdx : List Nat) (rst : RState),
       orderWith t key special roots = .ok (assemble t st.rows st.cache rst rootIdx) ∧
-      AsmCtx t roots key U st rootIdx rst := by
+      AsmCtx t roots key U st rootIdx rst ∧
+      importRootsLoop t key (t.size + 1) roots ({} : ImpState K) = .ok (st, rootIdx) ∧
+      reorder (special (reweigh st.refs st.wt)) st.refs rootIdx = some rst := by
   obtain ⟨ds, hin⟩ := inputOK_of t roots key U hv hs hk
   obtain ⟨st, ps, e1, i1, _, hall, hnew⟩ := importRoots_spec t key ds hin roots hv.1.2.1 ({} : ImpState K)
     (impInv_empty t key)
@@ -346,7 +348,7 @@ theorem orderWith_ok (t : Table) (roots : List Nat) (key : Nat → Option K) (sp
   have hps : ∀ r ∈ ps, r < st.rows.size := hall.left (P := fun x => x < st.rows.size) (fun _ _ h => h.1)
   obtain ⟨rst, e2, hinv, hroots0⟩ := reorder_spec st.rows.size st.refs
     (special (reweigh st.refs st.wt)) i1.s_refs hac ps hps
-  refine ⟨st, ps, rst, ?_, ⟨hv, hs, hk, i1, hall, hinv, ?_, fun k hk' => (hnew k (by simp) hk').2⟩⟩
+  refine ⟨st, ps, rst, ?_, ⟨hv, hs, hk, i1, hall, hinv, ?_, fun k hk' => (hnew k (by simp) hk').2⟩, e1, e2⟩
   · unfold orderWith
     rw [e1]
     simp only
@@ -392,7 +394,7 @@ theorem orderWith_valid (t : Table) (roots : List Nat) (key : Nat → Option K) 
     intro i j hi hj
     rw [hk.2 i j hi hj, hU i hi, hU j hj]
     exact ⟨fun h => Option.some.inj h, fun h => by rw [h]⟩
-  obtain ⟨st, rootIdx, rst, e, c⟩ := orderWith_ok t roots key special _ hv hs hkok
+  obtain ⟨st, rootIdx, rst, e, c, _, _⟩ := orderWith_ok t roots key special _ hv hs hkok
   refine ⟨_, e, ?_⟩
   have hsz := asm_size t st.rows st.cache rst rootIdx
   have hsem := c.isSem
